@@ -551,8 +551,8 @@ def _special_input(draw, first, K, max_side):
     if kind == 'square':
         return draw(gen.float_array((K, n, n), elems, sparse=False))
     if kind == 'matrix':
-        m_ = draw(st.integers(1, max_side))
-        return draw(gen.float_array((K, m_, n), elems, sparse=False))
+        shape = draw(st.sampled_from([(3, 2), (2, 3), (2, 2), (3, 3), (3, 1), (1, 3), (4, 2), (2, 4)]))
+        return draw(gen.float_array((K,) + shape, elems, sparse=False))
     if kind == 'vector':
         return draw(gen.float_array((K, n), elems, sparse=False))
     if kind == 'vecorsquare':
@@ -796,8 +796,16 @@ def _emit_family(draw, S, fam, allow_set_broadcast=True, allow_ndim_dot=False, a
         ok = S.try_emit([which, a, None, axis])
         if ok:
             z = S.nreg() - 1
-            form = draw(st.integers(0, 3))
-            if form == 0:
+            form = draw(st.integers(0, 5))
+            if form >= 4:
+                # mix the complex intermediate with a real register: z - r, r - z, z + r, r * z
+                r = _pick(draw, S, lambda q: not S.cplx(q) and S.shape(q) in ((), S.shape(z)))
+                if r is not None:
+                    opn = draw(st.sampled_from(['sub', 'sub', 'add', 'mul']))
+                    args = (z, r) if form == 4 else (r, z)
+                    if S.try_emit(['bin', opn, args[0], args[1]]):
+                        S.try_emit([draw(st.sampled_from(['real', 'imag'])), S.nreg() - 1])
+            elif form == 0:
                 S.try_emit(['real', z])
             elif form == 1:
                 S.try_emit(['imag', z])
